@@ -64,11 +64,8 @@ SPEC = {
         "batches are cut at fiber boundaries only (addTraces 'must be called after two fibers are fully intersected'); "
         "a batch may be empty (a call made when nothing was traced since the previous consumption: before the first "
         "fiber, twice at one boundary, after the last fiber); such a call contributes 0 to every total",
-        "TEMPORARY guard pending decision: on the unchanged tree TwoFingerIntersector.addTraces([], []) as the very "
-        "first call raises IndexError (SkipAhead guards this case, TwoFinger does not); empty calls that precede the "
-        "first non-empty call are therefore not fed to the two-finger model (TWO_FINGER_SKIP_EMPTY_FIRST_CALLS); "
-        "they are fed to the skip-ahead and leader-follower models, and empty calls in the middle / at the end are fed "
-        "to all three",
+        "empty calls are fed to all three models, including before the first non-empty call (TwoFingerIntersector "
+        "raised IndexError there until repository fix a26e85b; key two-finger:empty-first-call:raised:IndexError)",
         "leader-follower model fed the intersect_<l> trace of one operand of `&` counts the rows that operand "
         "presented: elements consumed by the merge including the one left under the finger when the other "
         "operand ran out (reading fixed by test_num_isect_leader_follower); for a real leader-follower "
@@ -513,11 +510,10 @@ def _execute(case, groups, style="and", slots=None):
     return chunks
 
 
-# TEMPORARY guard pending decision: TwoFingerIntersector.addTraces([], []) as the very first call raises
-# IndexError on the unchanged tree (`len(trace0[0])` without SkipAhead's `and trace0`); while the guard is on,
-# the empty calls that precede the first non-empty one are not fed to the two-finger model.  With the guard off
-# the failure is reported under its own key two-finger:empty-first-call:raised:IndexError.
-TWO_FINGER_SKIP_EMPTY_FIRST_CALLS = True
+# TwoFingerIntersector.addTraces([], []) as the very first call raised IndexError until repository fix a26e85b
+# (`len(trace0[0])` without SkipAhead's `and trace0`); the failure is reported under its own key
+# two-finger:empty-first-call:raised:IndexError.  The guard stays available (off) for bisecting older trees.
+TWO_FINGER_SKIP_EMPTY_FIRST_CALLS = False
 
 
 def _is_empty(chunk):
